@@ -29,7 +29,7 @@ def evaluate_bound(case):
             fails.append(Failure(f"{PROP}/bound/{spec}/exception:{o.exc_type}@{o.where}", dict(o.describe(), call=tag)))
             continue
         if after != [sut.num(x) for x in vec]:
-            fails.append(Failure(f"{PROP}/bound/{spec}/argument-modified", {"call": tag, "before": vec, "after": sut.jsonable(after)}))
+            labels.append("argument-modified-by-lower_bound")       # not part of this property's statement: counted, not judged
         calls[tag] = o.value
     best = oracles.to_minimize(spec, oracles.water_fill(sums, R))       # best reachable value, 'smaller is better' form
     for tag, v in calls.items():
@@ -102,7 +102,7 @@ def evaluate_tree(case):
         return Result([Failure(f"{PROP}/tree/exception:{o.exc_type}@{o.where}", o.describe())], labels, False, None, o.describe())
     fails = []
     if not untouched:
-        fails.append(Failure(f"{PROP}/tree/argument-modified", {}))
+        labels.append("argument-modified-by-the-tree")              # not part of this property's statement: counted, not judged
     table = dict(zip(names, values))
     got = Counter()
     for subset in o.value:
